@@ -1,0 +1,26 @@
+//go:build verif
+// +build verif
+
+package net
+
+// Contracts for the deductive verifier in /verif (govc). Comment-only file.
+
+//@ func (*Conn).Read
+//@   prop C05 C20
+//@   requires c != nil
+//@   nocall SetDeadline
+//@   nocall SetWriteDeadline
+//@   nocall Write
+//@   callpre (net.Conn).Read @reads-into-the-callers-buffer arg1 == b
+//@   modifies b[0:len(b)], rawreadn, rawreaderr, statval, atomu64
+//@   ensures @returns-what-the-socket-returned-unless-arming-the-deadline-failed (result0 == rawreadn && result1 == rawreaderr) || (result0 == 0 && result1 != nil && rawreadn == old(rawreadn))
+
+//@ func (*Conn).Write
+//@   prop C05 C20
+//@   requires c != nil
+//@   nocall SetDeadline
+//@   nocall SetReadDeadline
+//@   nocall Read
+//@   callpre (net.Conn).Write @writes-the-callers-buffer arg1 == b
+//@   modifies rawwriten, rawwriteerr, statval, atomu64
+//@   ensures @returns-what-the-socket-returned-unless-arming-the-deadline-failed (result0 == rawwriten && result1 == rawwriteerr) || (result0 == 0 && result1 != nil && rawwriten == old(rawwriten))
